@@ -6,7 +6,7 @@
 #define AM_MAX_EVENTS 8192
 #define AM_MAX_BLOCKS 4096
 enum { AM_MALLOC = 1, AM_CALLOC, AM_REALLOC, AM_MEMALIGN, AM_FREE, AM_FREE_NULL };
-enum { AM_BAD_NONE = 0, AM_BAD_DOUBLE, AM_BAD_FOREIGN, AM_BAD_INTERIOR, AM_BAD_DECOY };
+enum { AM_BAD_NONE = 0, AM_BAD_DOUBLE, AM_BAD_FOREIGN, AM_BAD_INTERIOR, AM_BAD_DECOY, AM_BAD_OVERRUN };
 
 typedef struct {
     int seq, op, obj, opidx, block, bad, failed_by_injection;
@@ -33,6 +33,8 @@ const am_event *am_events(void);
 long am_requests(void);
 void am_enable(int on);
 void am_add_decoy(void *p);
+void am_set_min_align(unsigned a);   /* 16 (default, the x86-64 ABI) or 8: malloc/calloc blocks then start at 8 or 24 modulo 32, as on ABIs whose allocator only guarantees 8 */
+int am_slack_damaged(int obj, long *off); /* bytes between the end of a live block of obj (-1: any) and the guard page no longer hold the fill pattern */
 int am_in_arena(const void *p, int *block, long *off);
 const am_block *am_blocks(int *n);
 int am_live_blocks(void);
